@@ -40,6 +40,10 @@ template<class G> static inline int64_t entry_off(const G& g, typename G::iterat
    auto it = g.begin(); for(; it != g.end(); ){ auto e = *it; if(k < cap){ addrs[k] = sbepp::addressof(e) - p; sizes[k] = sbepp::size_bytes(e); } k++; \
      auto prev = it; if(k & 1) ++it; else it++; if(prev == it) *flags |= 1; } \
    if(!(it == g.end())) *flags |= 2; return k; } \
+ /* the same walk through the cursor API: entries from cursor_range, each entry's members skipped in order; records entry addresses and the final cursor position */ \
+ W uint32_t ncwalk_##P(char* p, size_t n, int64_t* addrs, uint32_t cap, int64_t* cend){ auto m = sbepp::make_view<vs_dims::messages::n_##P>(p, n); auto c = sbepp::init_cursor(m); uint32_t k = 0; \
+   for(auto e : m.g(c).cursor_range(c)){ if(k < cap) addrs[k] = sbepp::addressof(e) - p; k++; e.a(sbepp::cursor_ops::skip(c)); e.d(sbepp::cursor_ops::skip(c)); } \
+   *cend = c.pointer() - p; return k; } \
  W uint64_t nsize_##P(char* p, size_t n){ return (uint64_t)ngrp_##P(p, n).size(); } \
  W bool nempty_##P(char* p, size_t n){ return ngrp_##P(p, n).empty(); } \
  W int64_t nfront_##P(char* p, size_t n){ return sbepp::addressof(ngrp_##P(p, n).front()) - p; } \
@@ -208,15 +212,18 @@ def wide_index_harness(u, n, b, excl_f12b=True, twin=False):
     return hgen.harness([u], body)
 
 
-def nested_harness(u, n, maxsz):
+def nested_harness(u, n, maxsz, b=None, wide=False):
+    """n: numInGroup type, b: blockLength type (None: same as n, message n_<n>); wide: the wire blockLength is either small or just above the maximum of the numInGroup type (uint8: 259)"""
+    b = b or n
+    P_ = n if b == n else "%s_%s" % (n, b)
     body = r"""
-  enum { N = 64, HDR = 8, S = %(s)d, MAXSZ = %(maxsz)d };
+  enum { N = %(N)d, HDR = 8, SB = %(sb)d, S = %(s)d, MAXSZ = %(maxsz)d };
   IN_BYTES(buf, N); unsigned char old[N]; verif_copy(old, buf, N);
   u64 rbl = ref_rd(buf + 0, 2, 0); VASSUME(rbl <= 1);
   u64 gpos = HDR + rbl;
-  u64 bl = ref_rd(buf + gpos, S, 0), cnt = ref_rd(buf + gpos + S, S, 0);
-  VASSUME(bl >= 1 && bl <= 3); VASSUME(cnt <= MAXSZ);
-  u64 pos = gpos + 2 * S, eoff[MAXSZ], esz[MAXSZ];
+  u64 bl = ref_rd(buf + gpos, SB, 0), cnt = ref_rd(buf + gpos + SB, S, 0);
+  %(blassume)s VASSUME(cnt <= MAXSZ);
+  u64 pos = gpos + SB + S, eoff[MAXSZ], esz[MAXSZ];
   for (unsigned i = 0; i < MAXSZ; i++) { eoff[i] = 0; esz[i] = 0; if (i < cnt) { eoff[i] = pos; u64 dl = buf[pos + bl]; VASSUME(dl <= 2); esz[i] = bl + 1 + dl; pos += esz[i]; } }
   SELECT(which);
   if (which == 0) {
@@ -233,15 +240,25 @@ def nested_harness(u, n, maxsz):
     VASSERT(!verif_aborted, "no handler");
     VASSERT(s == cnt && em == (cnt == 0) && sb == pos - gpos, "size/empty/size_bytes of a nested group");
     if (cnt > 0) VASSERT(fr == (i64)eoff[0], "front() is the first entry");
+  } else if (which == 4) {
+    i64 ad[MAXSZ + 1], cend = -1; u32 k = 0;
+    for (unsigned i = 0; i < MAXSZ + 1; i++) ad[i] = -1;
+    CALL(k = ncwalk_%(n)s(buf, N, ad, MAXSZ + 1, &cend));
+    VASSERT(!verif_aborted, "no handler");
+    VASSERT(k == cnt, "cursor_range over a nested group yields exactly size() entries");
+    for (unsigned i = 0; i < MAXSZ; i++) if (i < cnt) VASSERT(ad[i] == (i64)eoff[i], "cursor-based entry i starts where entry i-1 ends (wire blockLength + its data)");
+    VASSERT(cend == (i64)pos, "after the cursor walk the cursor is at the end of the group");
   } else {
     VASSUME(which == 2 || which == 3);
     IN(u64, c); VASSUME(c <= %(nmax)s);
     if (which == 2) CALL(nresize_%(n)s(buf, N, c)); else { c = 0; CALL(nclear_%(n)s(buf, N)); }
     VASSERT(!verif_aborted, "no handler");
-    VASSERT(ref_rd(buf + gpos + S, S, 0) == c, "resize/clear set numInGroup");
-    for (unsigned i = 0; i < N; i++) if (!(i >= gpos + S && i < gpos + 2 * S)) VASSERT(buf[i] == old[i], "resize/clear change only numInGroup");
+    VASSERT(ref_rd(buf + gpos + SB, S, 0) == c, "resize/clear set numInGroup");
+    for (unsigned i = 0; i < N; i++) if (!(i >= gpos + SB && i < gpos + SB + S)) VASSERT(buf[i] == old[i], "resize/clear change only numInGroup");
   }
-""" % {"s": U[n], "n": n, "maxsz": maxsz, "nmax": "0x%xULL" % ((1 << (8 * U[n])) - 2)}
+""" % {"s": U[n], "sb": U[b], "n": P_, "maxsz": maxsz, "nmax": "0x%xULL" % ((1 << (8 * U[n])) - 2),
+       "N": (8 + 1 + 16 + maxsz * (259 + 3) + 2) if wide else 64,
+       "blassume": "VASSUME(bl == 2 || bl == 259);   /* 259 = just above the uint8 range: a wire blockLength wider than the numInGroup type */" if wide else "VASSUME(bl >= 1 && bl <= 3);"}
     return hgen.harness([u], body)
 
 
@@ -288,11 +305,23 @@ def build(ctx):
                                             extra_flags=["--no-standard-checks"], defines=["VERIF_WHICH=%d" % arm],
                                             desc="flat group numInGroup=%s blockLength=%s, arm %d of {0 operator[](i), 1 back(), 2 size/begin/end, 3 distance+comparisons of (i,j)} with numInGroup and the indices over the whole type range" % (n, b, arm),
                                             bounds={"blockLength": "0..65535 (of %s)" % b, "numInGroup": "full %s range (<= 2^32-1)" % n, "i,j,k": "any index inside the group", "std": "c++" + std, "build": mode}))
-            un = ctx.lower("c12n", cpp([], list(U)), std=std, mode=mode, incs=[inc])
-            for n in U:
-                for arm in range(4):
-                    hs.append(P.Harness("nested_%s_arm%d_%s_cxx%s" % (n, arm, mode, std), nested_harness(un, n, maxsz), [un], unwind=maxsz + 3, backends=["minisat", "z3"], cap=ctx.q(300, 900),
+            mixed = [(n_, b_) for n_ in U for b_ in U if n_ != b_]
+            if ctx.quick: mixed = [("uint8", "uint16"), ("uint16", "uint8"), ("uint8", "uint64"), ("uint32", "uint16")]
+            if cpairs is not pairs: mixed = []
+            npairs = [(n_, n_) for n_ in U] + mixed
+            un = ctx.lower("c12n", cpp([], [n_ if n_ == b_ else "%s_%s" % (n_, b_) for (n_, b_) in npairs]), std=std, mode=mode, incs=[inc])
+            for (n, b) in npairs:
+                for arm in range(5):
+                    hs.append(P.Harness("nested_%s_%s_arm%d_%s_cxx%s" % (n, b, arm, mode, std), nested_harness(un, n, maxsz, b), [un], unwind=maxsz + 3, backends=["minisat", "z3"], cap=ctx.q(300, 900),
                                         defines=["VERIF_WHICH=%d" % arm],
-                                        desc="nested group (%s/%s dims, entries with a <data> member), arm %d of {0 forward iteration addresses, 1 size/empty/front/size_bytes, 2 resize frame, 3 clear frame}" % (n, n, arm),
+                                        desc="nested group (numInGroup %s / blockLength %s, entries with a <data> member), arm %d of {0 forward iteration addresses, 1 size/empty/front/size_bytes, 2 resize frame, 3 clear frame, 4 cursor_range walk addresses + final cursor}" % (n, b, arm),
                                         bounds={"size": "0..%d" % maxsz, "blockLength": "1..3", "data_len": "0..2", "std": "c++" + std, "build": mode}))
+            # wire blockLength beyond the range of a narrower numInGroup type (uint8 numInGroup with a wider blockLength; uint16/uint16 as control)
+            if std == "17" and mode == "checked":
+                for (n, b) in [("uint8", "uint16"), ("uint8", "uint64"), ("uint16", "uint16")] if ctx.quick else [("uint8", "uint16"), ("uint8", "uint32"), ("uint8", "uint64"), ("uint16", "uint16"), ("uint16", "uint32")]:
+                    for arm in (0, 1, 4):
+                        hs.append(P.Harness("nested_%s_%s_wide_arm%d_%s_cxx%s" % (n, b, arm, mode, std), nested_harness(un, n, 2, b, wide=True), [un], unwind=5, backends=["minisat", "kissat"], cap=ctx.q(300, 900),
+                                            defines=["VERIF_WHICH=%d" % arm], extra_flags=["--no-standard-checks"], meta={"big_unwind": 700},
+                                            desc="nested group (numInGroup %s / blockLength %s): wire blockLength 2 or 259 (beyond the uint8 range), arm %d of {0 forward iteration, 1 size_bytes/front, 4 cursor_range walk}" % (n, b, arm),
+                                            bounds={"size": "0..2", "blockLength": "{2, 259}", "data_len": "0..2", "std": "c++" + std, "build": mode}))
     return hs
